@@ -105,7 +105,7 @@ claim("C18",
       "Decides the table structure of address interpretation: every documented scheme has a case constructing the documented type in the four "
       "dispatchers, each switch has an error-returning default, a dispatcher that switches on an expression computed from the scheme is rejected; sibling switches agree; every implementation chosen for a +tls scheme sets its "
       "secure flag on every successful +tls path and ProtoAddress.Addr covers the admitted socket/packet schemes; all Unmarshal{YAML,JSON,Flag} "
-      "forms of a configuration type reach the same dispatcher (Channels.UnmarshalFlag does not: recorded known finding); Connect never rewrites the configured address/scheme; no unchecked type assertion on decoded configuration data that valid input can reach; no maybe-nil pointer is "
+      "forms of a configuration type reach the same dispatcher (Channels.UnmarshalFlag does not: recorded known finding); no upstream's Connect (or a helper it calls on its receiver) writes any field of the configured address — scheme, credentials, host — so every reconnect interprets the same address; dispatchers may be switch statements or map[string]constructor tables with a comma-ok miss branch; no unchecked type assertion on decoded configuration data that valid input can reach; no maybe-nil pointer is "
       "dereferenced unguarded in the parsing cone.",
       "Not decided: net/url parsing, the yaml/reflection bridge, arbitrary malformed strings. README table is transcribed in the checker.")
 
